@@ -1,6 +1,6 @@
 (** C17 - hexadecimal input helper for the correspondence check (long byte strings are passed to
     [coqc] as string literals, which parse in linear time). *)
-From Coq Require Import NArith List Bool String Ascii.
+From Coq Require Import NArith ZArith List Bool String Ascii.
 Import ListNotations.
 Local Open Scope N_scope.
 
@@ -47,5 +47,34 @@ Fixpoint veqb (a b : value) : bool :=
   | VBool x, VBool y => Bool.eqb x y
   | VNull, VNull => true
   | VFloat _ _, VFloat _ _ => true
+  | _, _ => false
+  end.
+
+From CB Require Import Cbor.CborSchema.
+
+(** structural comparison of schema values (catch-all maps in the given order) *)
+Fixpoint xeqb (a b : sval) : bool :=
+  match a, b with
+  | XN n, XN m => n =? m
+  | XZ n, XZ m => Z.eqb n m
+  | XBool x, XBool y => Bool.eqb x y
+  | XText x, XText y | XBytes x, XBytes y => bytes_eqb x y
+  | XVal x, XVal y | XUnknown x, XUnknown y => veqb x y
+  | XNone, XNone => true
+  | XSome x, XSome y | XKnown x, XKnown y => xeqb x y
+  | XList l, XList l' =>
+    (fix go (l l' : list sval) : bool :=
+       match l, l' with [], [] => true | x :: r, y :: r' => xeqb x y && go r r' | _, _ => false end) l l'
+  | XStruct l o, XStruct l' o' =>
+    (fix go (l l' : list sval) : bool :=
+       match l, l' with [], [] => true | x :: r, y :: r' => xeqb x y && go r r' | _, _ => false end) l l'
+    && (fix go (l l' : list (value * value)) : bool :=
+          match l, l' with
+          | [], [] => true
+          | (k, x) :: r, (k', y) :: r' => veqb k k' && veqb x y && go r r'
+          | _, _ => false
+          end) o o'
+  | XVariant i x, XVariant j y => Nat.eqb i j && xeqb x y
+  | XOther k x, XOther k' y => veqb k k' && veqb x y
   | _, _ => false
   end.
